@@ -62,6 +62,8 @@ type c18case struct {
 	trials  int    // > 1: the observation must be the same in every trial
 	elapsed bool   // emit a retry-elapsed line instead (no-jitter policies only)
 	via     int    // 0 RetryWithCtx, 1 RetrySome, 2 Retry (the wrappers: live context, ctx must be "-")
+	probe   time.Duration // > 0: the context has a deadline this far ahead and never ends (ctx must be "h"); the oracle
+	// decides from the pause it computes whether the deadline check refuses the wait (retry-probe)
 }
 
 func (c c18case) request() string {
@@ -136,6 +138,10 @@ func c18runOnce(c c18case, nearIn time.Duration) (string, time.Duration, bool) {
 	near := strings.ContainsRune(evs, 'd')
 	var nearDeadline time.Time
 	switch {
+	case c.probe > 0:
+		v := &vctx{done: make(chan struct{})}
+		v.deadline, v.hasDl = time.Now().Add(c.probe), true
+		ctx, endCtx = v, v.end
 	case useV:
 		v := &vctx{done: make(chan struct{})}
 		if c.ctx[0] == 'h' {
@@ -454,6 +460,24 @@ func TestVerifC18(t *testing.T) {
 		}
 	}
 
+	// 2f. the magnitude of pauses far longer than a test can sleep, seen through the deadline check: the context's
+	// deadline lies 30 min ahead; every policy's pauses are either at most microseconds (slept) or at least an hour
+	// (refused).  The oracle computes the pause from the policy as configured and decides.
+	probes := []ExpBackOff{
+		{BackOff: time.Hour, Max: 1}, {BackOff: time.Hour, Max: time.Microsecond}, {BackOff: 2 * time.Hour, Max: time.Hour},
+		{BackOff: 1, Max: time.Hour}, {BackOff: time.Microsecond, Max: 0}, {BackOff: time.Hour, Max: 0},
+		{BackOff: 0, Max: time.Hour}, {BackOff: -5, Max: 2 * time.Hour}, {BackOff: time.Hour, Max: -1},
+		{BackOff: math.MaxInt64, Max: 3}, {BackOff: 1 << 62, Max: time.Microsecond, KeepErrs: 2}, {BackOff: 3, Max: math.MaxInt64},
+		{BackOff: time.Hour, Max: time.Hour - 1}, {BackOff: time.Hour, Max: time.Hour + 1}, {BackOff: 2, Max: 1},
+	}
+	for _, p := range probes {
+		for _, r := range []int{Forever, 1, 2, 3, 5, 7} {
+			for _, s := range []string{"r", "rr", "rrr", "rrrrr", "rro", "rrf", "rrrrrr"} {
+				cases = append(cases, c18case{cfg: p, retries: r, outs: s, ctx: "h", trials: 1, probe: 30 * time.Minute})
+			}
+		}
+	}
+
 	// run them on a pool of workers; results are written in case order
 	obs := make([]string, len(cases))
 	els := make([]time.Duration, len(cases))
@@ -495,6 +519,11 @@ func TestVerifC18(t *testing.T) {
 			} else {
 				o.line(fmt.Sprintf("retry-elapsed %s %d", c.request(), int64(els[i])), obs[i])
 			}
+		}
+		if c.probe > 0 {
+			f := strings.Fields(c.request())
+			o.line(fmt.Sprintf("retry-probe %s %s %s %d", f[0], f[1], f[2], int64(c.probe)), obs[i])
+			continue
 		}
 		o.line("retry "+c.request(), obs[i])
 	}
